@@ -645,6 +645,7 @@ func (ls *LanceroSource) launchLanceroReader() {
 	go func() {
 		ticker := time.NewTicker(ls.readPeriod)
 		lastSuccesfulRead := time.Now()
+		discardedUnreported := false // a misaligned buffer was discarded and no block has reported the loss yet
 		for {
 			select {
 			case <-ls.abortSelf:
@@ -678,7 +679,14 @@ func (ls *LanceroSource) launchLanceroReader() {
 					fmt.Printf("ncols have %v, want %v. nrows have %v, want %v, timeSinceLastSuccesfulRead %v\n",
 						ncols, dev.ncols, nrows, dev.nrows, timeSinceLastSuccesfulRead)
 					dev.card.ReleaseBytes(len(b))
+					discardedUnreported = true
 					continue
+				}
+				if discardedUnreported {
+					// Data were thrown away above; even if this buffer happens to start on a frame
+					// boundary, the block made from it must report the loss.
+					dataDropDetected = true
+					discardedUnreported = false
 				}
 				firstWord := q
 				// check for dataDrop
